@@ -44,11 +44,11 @@ func fieldSets(thorough bool) sets {
 		ports:    []string{"0", "22", "65535"},
 		keytypes: []string{"RSA", "DSA", "ECDSA", "ED25519", "ECDSA-SK", "ED25519-SK", "XMSS"},
 		fps:      []string{"SHA256:YI+caZKJCNaXgsD0NvRZ2fLaEeF46cEVyadru/SL76o", "MD5:aa:bb:cc:dd:ee:ff:00:11:22:33:44:55:66:77:88:99"},
-		keyids:   []string{"k", "a b", "x (serial 7)", "serial", "ID y", "(z) CA q", "foo@bar.com"},
+		keyids:   []string{"k", "a b", "x (serial 7)", "serial", "ID y", "(z) CA q", "foo@bar.com", "two  blanks"},
 		serials:  []string{"0", "18446744073709551615"},
 		cas:      []string{"CA ED25519 SHA256:Pcs5TWfcOSKb7Rw/XyvHfUcaQzmw6HtLrjUoyXuzIj8", "CA RSA MD5:aa:bb:cc:dd:ee:ff:00:11:22:33:44:55:66:77:88:99"},
-		shells:   []string{"/bin/zsh", "/opt/my shell/sh", "x"},
-		paths:    []string{"/home/a/.ssh/authorized_keys", "/etc/ssh/revoked keys", "/x"},
+		shells:   []string{"/bin/zsh", "/opt/my shell/sh", "x", "/opt/tab\tand  blanks/sh"},
+		paths:    []string{"/home/a/.ssh/authorized_keys", "/etc/ssh/revoked keys", "/x", "/srv/my  files/keys"},
 		dns:      []string{"evil.example.com", "a.b", `q"uote`},
 		reasons:  []string{"expired", "name is not a listed principal", "Certificate invalid: nested", "not yet valid"},
 		hosts:    []string{"1.2.3.4", "host.example.com", "fe80::1%eth0"},
@@ -58,7 +58,7 @@ func fieldSets(thorough bool) sets {
 		s.addrs = []string{"1.2.3.4", "fe80::1%eth0", "host.example.com"}
 		s.ports = []string{"0", "65535"}
 		s.keytypes = []string{"RSA", "ED25519", "ECDSA-SK"}
-		s.keyids = []string{"k", "a b", "x (serial 7)", "ID y"}
+		s.keyids = []string{"k", "a b", "x (serial 7)", "ID y", "two  blanks"}
 	}
 	return s
 }
